@@ -16,8 +16,9 @@ pub struct C20;
 
 impl Checker for C20 {
     fn plan(&self) -> harness::sess::Plan {
-        // whole-FAT scans on these volumes legitimately take tens of millions of device calls
-        harness::sess::Plan { budget: Some(400_000_000), ..Default::default() }
+        // whole-FAT scans on these volumes legitimately take hundreds of millions of device calls (268 million FAT
+        // entries on the largest shape; a scan that wraps around reads them twice)
+        harness::sess::Plan { budget: Some(1_200_000_000), ..Default::default() }
     }
     fn check(&self, _cfg: &Cfg, ops: &[Op], ex: &Exec) -> Vec<(String, String)> {
         let mut v = o::o_result("C20", ops, ex);
